@@ -639,6 +639,32 @@ EVALFLEX_C16 = ["EvalFlex." + n for n in [
     "flex_CallsAtMost", "flex_CallsAtMost_fine", "flex_calls_tight", "leaf_calls_le_pow_block_flex_leaf_trees",
     "algsFanF_callsAtMost", "FanNoGrid_agree"]]
 
+# flexbox as a whole program (Model/Flex.lean): the evaluator-level hypotheses discharged for flex
+EVALFLEX_C06_MODULES = ["TaffyVerif.Props.EvalFlexAbs"]
+EVALFLEX_C06 = ["EvalFlexAbs." + n for n in [
+    "flex_AbsBlind", "flex_items_abs_blind", "flex_abs_pass_only_abs", "algs_AbsBlind_flex", "abs_invisible_flex_algs",
+    "eval_block_flex_leaf_trees", "abs_invisible_block_flex_leaf_trees", "abs_invisible_pass_block_flex_leaf_trees",
+    "abs_invisible_replace_block_flex_leaf_trees"]] + [
+    "FlexStages.computePreliminary_eq", "FlexAbs.computeFlexboxLayout_equiv"]
+
+EVALFLEX_C04_MODULES = ["TaffyVerif.Props.EvalFlexScale"]
+EVALFLEX_C04 = ["C04Flex." + n for n in [
+    "flex_split", "flex_after_main_homogeneous", "flex_prefix_sim", "simS_iff_scaleProg", "noIntrinsicMain_iff",
+    "flex_homogeneous_partial", "noIntrinsicMain_scale", "flex_homogeneous_run_partial", "run_of_homogeneous",
+    "item_floor_homogeneous", "item_fraction_not_homogeneous", "witness_values", "witness_side_condition",
+    "flex_not_homogeneous", "not_algsHomogeneous_flex"]] + [
+    "FlexStages.computePreliminary_split", "FlexStages.flexBaseSizeItem_eq", "FlexStages.intrinsicItem_eq",
+    "FlexStages.determineContainerMainSize_eq", "FlexStages.hypotheticalCrossItem_eq", "FlexStages.baselineItems_cons",
+    "FlexStages.calculateFlexItem_eq", "FlexStages.absItem_eq",
+    "C04.intrinsicTarget_scale", "C04.inFraction_scale", "C04.intrinsicLines_sim", "C04.afterMain_scale",
+    "C04.computeFlexboxLayout_scale_of", "C04.computeFlexboxLayout_scale_run", "C04.runO_sim"]
+
+EVALFLEX_C12_MODULES = ["TaffyVerif.Props.EvalFlexBox"]
+EVALFLEX_C12 = ["C12Flex." + n for n in [
+    "flex_container_site_equiv", "flex_item_site_equiv", "flex_sites", "flex_ContainerBlind", "boxBlind_flex",
+    "tree_equiv_flex", "tree_equiv_block_flex_leaf_trees", "tree_equiv_root_block_flex_leaf_trees"]] + [
+    "C12L.flex_containerBlind", "C12L.fbDefinite_tbb", "C12L.usedCrossItem_tbb", "C12L.computeConstants_tbb"]
+
 _PAIRS_TRUSTED = [
     "the whole-tree clause is NOT a theorem here: it is checked by sampling tree pairs on the real implementation "
     "(fresh TaffyTree, rounding disabled, harness measure function treegen::measure); the predicate is evaluated twice, "
@@ -731,7 +757,7 @@ PROPS["C17"] = {
 }
 
 PROPS["C04"] = {
-    "modules": ['TaffyVerif.Props.C04'], "theorems": ['C04.num_homogeneous', 'C04.resolve_homogeneous', 'C04.aspect_ratio_homogeneous', 'C04.clamp_homogeneous', 'C04.margin_set_homogeneous', 'C04.measure_homogeneous', 'C04.leaf_homogeneous', 'C04.leaf_homogeneous_ctx', 'C04.root_homogeneous', 'C04.abs_homogeneous', 'C04.abs_call_sites_homogeneous', 'C04.flex_line_homogeneous', 'C04.block_homogeneous', 'C04.flow_loop_homogeneous', 'C04.place_item_homogeneous', 'C04.tree_homogeneous', 'C04.tree_homogeneous_fresh', 'C04.tree_homogeneous_evalNode', 'C04.leafAlg_homogeneous', 'C04.algs_homogeneous_concrete', 'C04.tree_homogeneous_concrete', 'C04.cache_roughly_equal_homogeneous', 'C04.cache_roughly_equal_not_homogeneous'],
+    "modules": ['TaffyVerif.Props.C04'] + EVALFLEX_C04_MODULES, "theorems": EVALFLEX_C04 + ['C04.num_homogeneous', 'C04.resolve_homogeneous', 'C04.aspect_ratio_homogeneous', 'C04.clamp_homogeneous', 'C04.margin_set_homogeneous', 'C04.measure_homogeneous', 'C04.leaf_homogeneous', 'C04.leaf_homogeneous_ctx', 'C04.root_homogeneous', 'C04.abs_homogeneous', 'C04.abs_call_sites_homogeneous', 'C04.flex_line_homogeneous', 'C04.block_homogeneous', 'C04.flow_loop_homogeneous', 'C04.place_item_homogeneous', 'C04.tree_homogeneous', 'C04.tree_homogeneous_fresh', 'C04.tree_homogeneous_evalNode', 'C04.leafAlg_homogeneous', 'C04.algs_homogeneous_concrete', 'C04.tree_homogeneous_concrete', 'C04.cache_roughly_equal_homogeneous', 'C04.cache_roughly_equal_not_homogeneous'],
     "harness": "C04", "driver": "C04", "monitor": False, "extra_ties": [("EVAL", "EVAL"), ("FLEX", "FLEX"), ("GRID", "GRID")], "extra_tie_cases": 4000,
     "rule": "style trees of 1-12 nodes, depth <= 4, flex/grid/block mixed (treegen::gen_tree with every feature on: hidden, "
             "absolute, percentages, aspect ratios, content-box, auto/negative margins, scroll containers, wrap/fixed measure "
@@ -760,13 +786,13 @@ PROPS["C04"] = {
                     "a tree on which both layouts panic is skipped (counted as panic:both; one such input class is a C03 matter: "
                     "repeat(auto-fit, ...) columns in a grid whose only children are display:none)"],
     "level_text": "Theorems at exact rationals, for every k > 0: every modelled function commutes with scaling all lengths by k — length/percentage resolution, the five MaybeMath clamp families, aspect-ratio transfer, margin sets, the measure functions, compute_leaf_layout (output and measure-call arguments), compute_root_layout's parts, the three absolute-positioning copies and their call sites, the flex line functions (freeze loop, justification, positions — no side condition needed), and the WHOLE block algorithm as an interaction program; and tree_homogeneous: the cache-free tree-level evaluator maps the scaled tree/state/input to the scaled output and scaled layouts whenever the container algorithms are homogeneous, which is proved for leaf and block, so trees of block containers and leaves are homogeneous outright. The cache's ε comparison is proved NOT homogeneous (witness) — hence the statement on cache-free evaluation. On the real code the clause is sampled on tree pairs with power-of-two factors, bit-exact.",
-    "level_note": 'partial: homogeneity of flexbox.rs as a whole and of grid are hypotheses of the tree theorem (sampled by tree pairs). Known findings: flex floor-at-1 of the scaled shrink factor; grid track-sizing THRESHOLD constants. No theorem relates f32 to rational arithmetic; with power-of-two factors every f32 operation commutes with the scaling exactly. Axioms: propext, Classical.choice, Quot.sound.',
+    "level_note": 'partial: flexbox.rs as a whole program (Model/Flex.lean) is proved homogeneous except for the one floor of determine_container_main_size (flexbox.rs l.1095): everything after the main-size determination unconditionally (C04Flex.flex_after_main_homogeneous), the prefix up to its result (C04Flex.flex_prefix_sim), the whole program when the main size is not determined intrinsically (C04Flex.flex_homogeneous_partial) and along every run on which no item hits the floor (C04Flex.flex_homogeneous_run_partial, exact item by item: C04Flex.item_fraction_not_homogeneous); the unconditional statement is refuted on a witness (C04Flex.flex_not_homogeneous, replayed on the real code). Homogeneity of grid is a hypothesis of the tree theorem (sampled by tree pairs). Known findings: flex floor-at-1 of the scaled shrink factor; grid track-sizing THRESHOLD constants. No theorem relates f32 to rational arithmetic; with power-of-two factors every f32 operation commutes with the scaling exactly. Axioms: propext, Classical.choice, Quot.sound.',
     "technique": 'Lean 4 equivariance proofs (function level + induction over the evaluator) + metamorphic scaled tree pairs on the real TaffyTree',
-    "undischarged": ['AlgsHomogeneous for flex and grid container programs (unmodelled as programs): sampled by the tree pairs only'],
+    "undischarged": ['AlgsHomogeneous for flex: FALSE (C04Flex.flex_not_homogeneous, known finding c04-flex-shrink-floor-at-one); proved under the static side condition C04.NoIntrinsicMain (C04Flex.flex_homogeneous_partial) and, run by run, under C04.RunFloorFree (C04Flex.flex_homogeneous_run_partial); the tree theorem is not lifted to trees with flex containers', 'AlgsHomogeneous for the grid program (unmodelled as a program): sampled by the tree pairs only'],
 }
 
 PROPS["C12"] = {
-    "modules": ['TaffyVerif.Props.C12'], "theorems": ['C12.core_arith', 'C12.adjustment_context_free', 'C12.core_site_shape', 'C12.core_flex_basis', 'C12.isAuto_invariant', 'C12.leaf_site_equiv', 'C12.root_site_equiv', 'C12.single_leaf_equiv', 'C12.abs_site_equiv_block', 'C12.abs_site_equiv_flex', 'C12.abs_site_equiv_grid', 'C12.abs_call_sites_equiv', 'C12.block_container_site_equiv', 'C12.block_item_site_equiv', 'C12.tree_equiv', 'C12.tree_equiv_init', 'C12.tree_equiv_root', 'C12.leafAlg_blind', 'C12.block_blind', 'C12.boxBlind_modelled', 'C12.tree_equiv_modelled', 'C12.tree_equiv_block_only', 'C12.grid_compressible_cap_site_not_equiv', 'C12.grid_compressible_cap_repaired_equiv'],
+    "modules": ['TaffyVerif.Props.C12'] + EVALFLEX_C12_MODULES, "theorems": EVALFLEX_C12 + ['C12.core_arith', 'C12.adjustment_context_free', 'C12.core_site_shape', 'C12.core_flex_basis', 'C12.isAuto_invariant', 'C12.leaf_site_equiv', 'C12.root_site_equiv', 'C12.single_leaf_equiv', 'C12.abs_site_equiv_block', 'C12.abs_site_equiv_flex', 'C12.abs_site_equiv_grid', 'C12.abs_call_sites_equiv', 'C12.block_container_site_equiv', 'C12.block_item_site_equiv', 'C12.tree_equiv', 'C12.tree_equiv_init', 'C12.tree_equiv_root', 'C12.leafAlg_blind', 'C12.block_blind', 'C12.boxBlind_modelled', 'C12.tree_equiv_modelled', 'C12.tree_equiv_block_only', 'C12.grid_compressible_cap_site_not_equiv', 'C12.grid_compressible_cap_repaired_equiv'],
     "harness": "C12", "driver": "C12", "monitor": False, "extra_ties": [("EVAL", "EVAL"), ("FLEX", "FLEX"), ("GRID", "GRID")], "extra_tie_cases": 4000,
     "rule": "style trees of 1-12 nodes as for C04 in which half of the nodes are made content-box with length-valued padding/border "
             "(multiples of 1/4, mostly non-zero), no aspect ratio, percentages in size/min/max/flex-basis replaced by lengths or auto, "
@@ -781,9 +807,9 @@ PROPS["C12"] = {
     "trusted_base": _PAIRS_TRUSTED,
     "assumptions": ["padding/border of switched nodes are lengths (percentages disqualify), values dyadic so sums are exact"],
     "level_text": "Theorems at exact rationals: for an eligible content-box style (length padding/border, no aspect ratio, size/min/max/flex-basis auto or lengths) and its border-box rewrite, every modelled size-reading site computes the same thing — compute_leaf_layout (incl. measure calls), compute_root_layout's parts, the three absolute-positioning copies (child and container side), the block algorithm for its own style and for any subset of switched child styles (equal programs); tree_equiv: with BoxBlind algorithms the two trees evaluate to equal outputs and equal states for every cache implementation, proved outright for trees of block containers and leaves. One unmodelled grid site (compressible replaced items' size cap in grid_item.rs) was found NOT equivalent — witness proved in Lean, replayed on the real code, repaired by a fix commit. On the real code the clause is sampled on tree pairs (random subsets of switched nodes), bit-exact.",
-    "level_note": 'partial: flex and grid item generation are not modelled as programs (ContainerBlind flex/grid are hypotheses; a regex site table notes/c12_sites.py lists every read of size/min_size/max_size/flex_basis and whether it is followed by the box-sizing adjustment). Axioms: propext, Classical.choice, Quot.sound.',
+    "level_note": 'partial: ContainerBlind is PROVED for the whole flexbox program (C12Flex.flex_ContainerBlind: own style and any subset of child styles, flex-basis along the main axis), so on trees of block containers, flexbox containers and leaves the tree theorem holds unconditionally (C12Flex.tree_equiv_block_flex_leaf_trees); grid item generation is not modelled as a program (ContainerBlind grid is a hypothesis; a regex site table notes/c12_sites.py lists every read of size/min_size/max_size/flex_basis and whether it is followed by the box-sizing adjustment). Axioms: propext, Classical.choice, Quot.sound.',
     "technique": 'Lean 4 site-equivalence proofs + induction over the evaluator + metamorphic box-sizing tree pairs on the real TaffyTree',
-    "undischarged": ['ContainerBlind for flex and grid (unmodelled as programs): sampled by the tree pairs and covered by the site table only'],
+    "undischarged": ['ContainerBlind for grid (unmodelled as a program; false of the real grid for compressible replaced items): sampled by the tree pairs and covered by the site table only'],
 }
 
 PROPS["C05"] = {
@@ -807,7 +833,8 @@ PROPS["C05"] = {
 }
 
 PROPS["C06"] = {
-    "modules": C06_EVAL_MODULES + EVALBLOCK_MODULES, "theorems": C06_EVAL_THEOREMS + EVALBLOCK_C06,
+    "modules": C06_EVAL_MODULES + EVALBLOCK_MODULES + EVALFLEX_C06_MODULES,
+    "theorems": C06_EVAL_THEOREMS + EVALBLOCK_C06 + EVALFLEX_C06,
     "harness": "C06", "driver": "C06", "monitor": False, "extra_ties": [("EVAL", "EVAL"), ("FLEX", "FLEX"), ("GRID", "GRID")], "extra_tie_cases": 4000,
     "rule": "style trees of 2-12 nodes as for C04, with 1-3 extra non-root nodes forced to position:absolute (random insets incl. "
             "percentages and negatives, a quarter with explicit grid lines, a quarter with auto lines, a third with large sizes); for "
@@ -821,9 +848,9 @@ PROPS["C06"] = {
     "assumptions": ["known finding c06-abs-grid-implicit-tracks: an absolutely positioned grid child's explicit lines create "
                     "implicit tracks (attribution uses the grid-line fields, which only the harness sees)"],
     "level_text": "Theorems over the tree-level evaluator, for every tree, state, input, fuel and each of the three cache implementations: if the container algorithms' programs are equivalent up to calls/set-layouts addressed to absolutely positioned children and up to the contentSize of the result (AbsBlind), then replacing an absolutely positioned box (style and subtree) by any other absolutely positioned box yields outputs equal up to contentSize and equal order, location, size, scrollbar, border, padding and margin at every node outside the absolute subtrees. On the real code the clause is checked on generated tree pairs; the grid size estimate's dependence on an absolute child's grid lines is the known finding.",
-    "level_note": 'partial: AbsBlind is a named hypothesis about the container algorithms; it is PROVED for the block model (EvalBlock.block_AbsBlind), so on BlockOnly trees the clause holds unconditionally; for flex and grid it remains a hypothesis validated by the tree-pair run. Known finding: grid (c06-abs-grid-implicit-tracks). Trusted: Lean kernel; Eval model. Axioms: propext, Classical.choice, Quot.sound.',
+    "level_note": 'partial: AbsBlind is a named hypothesis about the container algorithms; it is PROVED for the block model (EvalBlock.block_AbsBlind) and for the whole flexbox program (EvalFlexAbs.flex_AbsBlind), so on trees of block containers, flexbox containers and leaves (FlexTrees.NoGrid) the clause holds unconditionally (EvalFlexAbs.abs_invisible_*_block_flex_leaf_trees); for grid it remains a hypothesis validated by the tree-pair run. Known finding: grid (c06-abs-grid-implicit-tracks). Trusted: Lean kernel; Eval model. Axioms: propext, Classical.choice, Quot.sound.',
     "technique": 'Lean 4 simulation-up-to proof over the interaction-program evaluator + metamorphic tree pairs on the real TaffyTree',
-    "undischarged": ['AbsBlind for block, flex and grid programs: sampled by the tree pairs only'],
+    "undischarged": ['AbsBlind for the grid program (unmodelled as a program; known finding c06-abs-grid-implicit-tracks): sampled by the tree pairs only'],
 }
 
 PROPS["C09"] = {
